@@ -27,9 +27,49 @@ impl Ctx {
     }
 }
 
+/// deterministic family: complex selectors over two resources whose text-selection handles line up
+/// with the internal range compression (handles n, n+1 in one resource followed by n+2 / n+1 / n in
+/// another), for every complex kind and several member orders; then lookups and removals
+fn alignment_family(out: &mut Out, ctx: &Ctx) {
+    use crate::sx::a;
+    let r = |t: i64| l(vec![a(0), a(t)]);
+    let text = |res: i64, b: i64, e: i64| l(vec![a(0), r(res), l(vec![a(0), a(b)]), l(vec![a(0), a(e)])]);
+    for pre_x in 0..3i64 {
+        for pre_y in 0..6i64 {
+            for kind in 1..=3i64 {
+                for order in 0..3 {
+                    let mut ops = vec![l(vec![a(0), a(0), a(8)]), l(vec![a(0), a(1), a(8)])];
+                    for i in 0..pre_x {
+                        ops.push(l(vec![a(3), a(-1), text(0, 7 - i, 8), l(vec![])]));
+                    }
+                    for i in 0..pre_y {
+                        ops.push(l(vec![a(3), a(-1), text(1, i, i + 1), l(vec![])]));
+                    }
+                    let m = vec![text(0, 0, 1), text(0, 1, 2), text(1, 6, 8)];
+                    let members = match order {
+                        0 => vec![m[0].clone(), m[1].clone(), m[2].clone()],
+                        1 => vec![m[2].clone(), m[0].clone(), m[1].clone()],
+                        _ => vec![m[0].clone(), m[2].clone(), m[1].clone()],
+                    };
+                    let mut sel = vec![a(7), a(kind)];
+                    sel.extend(members);
+                    ops.push(l(vec![a(3), a(5), l(sel), l(vec![])]));
+                    ops.push(l(vec![a(7), r(1)])); // remove the second resource
+                    ops.push(l(vec![a(7), r(0)]));
+                    let req = l(ops);
+                    let (i2, o, nt) = ctx.exec(&req);
+                    out.count("alignment_family");
+                    out.case(&i2, &o, nt, &req);
+                }
+            }
+        }
+    }
+}
+
 pub fn generate(out: &mut Out, tier: &str, seed: u64) {
     let thorough = tier == "thorough";
     let ctx = Ctx::new();
+    alignment_family(out, &ctx);
     let mut rng = Rng::new(seed);
     let n = if thorough { 60000 } else { 3000 };
     for i in 0..n {
@@ -75,5 +115,5 @@ pub fn generate(out: &mut Out, tier: &str, seed: u64) {
     }
 }
 
-pub const RULE: &str = "seeded random histories of 1..14 (every 4th: 1..40) operations over <=6 resources of 0..8 codepoints, <=4 datasets, all nine selector kinds (text, annotation with and without relative offset, resource, dataset, key, data, Multi/Composite/Directional with 1..4 members incl. consecutive ranges that trigger and just miss range compression), references by id and by handle, data with and without ids, the same data twice, duplicate ids, one in 12 references invalid, removals of annotations/data (strict and not)/keys/resources/datasets (two thirds of the histories); after EVERY operation the outcome and, for every annotation, resource (with every known text selection), dataset (with every key and data item) slot, all reverse lookups through the public API, plus id resolution of 10 tokens per kind. One evaluation = one item record or operation outcome; non-trivial = history with a successful annotate/removal; distinct = distinct histories.";
+pub const RULE: &str = "a deterministic family of 162 histories in which the text-selection handles of two resources line up with the internal range compression of complex selectors (every complex kind, three member orders, then removal of both resources); seeded random histories of 1..14 (every 4th: 1..40) operations over <=6 resources of 0..8 codepoints, <=4 datasets, all nine selector kinds (text, annotation with and without relative offset, resource, dataset, key, data, Multi/Composite/Directional with 1..4 members incl. consecutive ranges that trigger and just miss range compression), references by id and by handle, data with and without ids, the same data twice, duplicate ids, one in 12 references invalid, removals of annotations/data (strict and not)/keys/resources/datasets (two thirds of the histories); after EVERY operation the outcome and, for every annotation, resource (with every known text selection), dataset (with every key and data item) slot, all reverse lookups through the public API, plus id resolution of 10 tokens per kind. One evaluation = one item record or operation outcome; non-trivial = history with a successful annotate/removal; distinct = distinct histories.";
 pub const EXHAUSTIVE: bool = false;
